@@ -64,6 +64,8 @@ static bool ret; static const vf_u8* p; static size_t avail, consumed, byte0, li
 #define ITER_UNCHANGED(in) (consumed == 0 %(cnt_same)s)
 #define POS_AGREE(in, ch) (%(pos_agree)s)
 static const bool vf_canary = true;
+static struct { int pending; } vf_exc = { 0 };
+%(defs_after)s
 int main(int argc, char** argv)
 {
    size_t n = %(n)d; static const unsigned char bytes[] = { %(bytes)s };
@@ -73,7 +75,7 @@ int main(int argc, char** argv)
    vf::%(intype)s in(%(ctor)s);
    p = (const vf_u8*)buf; avail = n;
    byte0 = %(byte)dul; line0 = %(line)dul; col0 = %(col)dul;
-   ret = vf::root_%(root)s(in);
+   try { ret = vf::root_%(root)s(in); } catch (...) { vf_exc.pending = 1; ret = false; }
    consumed = (size_t)(in.current() - buf);
    %(after)s
    int bad = 0;
@@ -119,8 +121,8 @@ int main()
 '''
 
 
-def run_native(job, src, tag):
-    d = os.path.join(WORK, 'replay', job.name)
+def run_native(job, src, tag, uniq=''):
+    d = os.path.join(WORK, 'replay', job.name + uniq)
     shutil.rmtree(d, ignore_errors=True)
     os.makedirs(d, exist_ok=True)
     cpp = os.path.join(d, 'replay.cpp')
@@ -167,7 +169,7 @@ def conv_replay(job, rec, mod):
     src = tu + CONV_MAIN % {'n': n, 'bytes': ', '.join(str(b) for b in bs) or '0', 'ctype': rp['ctype'], 'root': job.root,
                             'mode': rp.get('mode', 'pos'), 'max': rp['max'], 'negmax': rp.get('negmax', '0'), 'r0': r0,
                             'h0': '(WIDE)%s' % r0, 'arg': arg}
-    res = run_native(job, src, rec.get('tag'))
+    res = run_native(job, src, rec.get('tag'), '_' + re.sub(r'\W+', '_', rec.get('obligation') or '')[-40:])
     res['input'] = bytes(bs[:64]).decode('latin1')
     return res
 
@@ -215,11 +217,11 @@ def native_replay(job, rec, mod):
         checks.append('   if (!(%s)) { printf("CLAUSE-FAILED %s\\n"); bad = 1; }' % (txt, c.tag))
         tags.append(c.tag)
     src = tu + LEAF_MAIN % {
-        'defs': rp.get('defs', ''), 'n': avail, 'bytes': ', '.join(str(b) for b in bs) or '0', 'intype': intype,
+        'defs': rp.get('defs', ''), 'defs_after': rp.get('defs_after', ''), 'n': avail, 'bytes': ', '.join(str(b) for b in bs) or '0', 'intype': intype,
         'ctor': ctor.replace('byte0_', '%dul' % byte).replace('line0_', '%dul' % line).replace('col0_', '%dul' % col),
         'byte': byte, 'line': line, 'col': col, 'root': job.root, 'after': after, 'cnt_pos': cnt_pos,
         'cnt_same': cnt_same, 'pos_agree': pos_agree, 'checks': '\n'.join(checks)}
-    d = os.path.join(WORK, 'replay', job.name)
+    d = os.path.join(WORK, 'replay', job.name + '_' + re.sub(r'\W+', '_', rec.get('obligation') or '')[-40:])
     shutil.rmtree(d, ignore_errors=True)
     os.makedirs(d, exist_ok=True)
     cpp = os.path.join(d, 'replay.cpp')
